@@ -2,16 +2,18 @@ from props import cfg
 
 CFG = cfg('C15', refine=[], extract='Ex_C15', driver='c15',
           rule='model-based testing of key-management histories on real Ed25519 keys (Ed25519 / Curve25519 subkeys), explicit created= times with '
-               'same-second collisions, datetime.now frozen for the cross-signature: after a 4-step preamble on 2 keys, ALL histories of depth 1 over 32 '
-               'operation instances, depth 2 over 18, depth 3 over 10 (quick) / depth 2 over 32, depth 3 over 18, depth 4 over 10 (thorough, within a '
+               'same-second collisions, datetime.now frozen for the cross-signature: after a 4-step preamble on 2 keys, ALL histories of depth 1 over 38 '
+               'operation instances, depth 2 over 20, depth 3 over 10 (quick) / depth 2 over 38, depth 3 over 20, depth 4 over 10 (thorough, within a '
                'time budget - completed sweeps are listed under exhaustive_domains), hand-written histories, and random walks of depth 30 over the whole '
-               'operation set (create, add_uid text/image with preference sets, recertify, third-party certify incl. exportable 0/1, revoke uid / subkey / '
+               'operation set (create, add_uid text/image with preference sets, recertify, third-party certify of a user id and of the key itself (direct-key signature) incl. exportable 0/1, revoke uid / subkey / '
                'key, add revoker, del_uid, add_subkey signing / encryption, protect, unlock, lock, copy, export+import, publish the public twin) on up to '
                '4 key objects; after the compared steps the observable state of every object and of its public twin (signature lists with type / issuer / '
                'created / exportable / primary mark / flags+expiry+preferences, user id order, selfsig-derived effective attributes, key expiry, '
                'revocation reports, lock state) is compared with the extracted model, and the direct oracle runs on the real code: every signature '
                'verifies cryptographically under its issuer on the object, its twin, and the re-imports of bytes(key), str(key), bytes(key.pubkey); '
-               'selfsig = greatest (created, order of addition); removed identity absent; revocation reports change only for the target. '
+               'selfsig = greatest (created, order of addition); removed identity absent; revocation reports change only for the target; PGPKey.get_uid returns the first identity with a field EQUAL '
+               'to the search string (names that are proper substrings of other names / e-mail fields are in every alphabet); bytes(key) split into packets is '
+               'key + its exportable signatures + every user id / subkey with its exportable signatures. '
                'distinct = distinct histories',
           trusted=['tools/harness/c15.py RealWorld: mapping of an abstract operation to PGPy API calls and of PGPy objects to the canonical state string'],
           assumptions=['PARTIAL: signatures are symbolic in the theorems (verifies = recomputation of the digest term under the issuer label); the signature '
